@@ -128,6 +128,14 @@ def problems(rng, tier):
                    bypass_fraction=0.05, coolant='sodium')
     c6['setup']['param_update_tol'] = 0.02
     out.append(('sodium-update-tolerance', c6, True))
+    # region bounds that are round in metres and not in feet or inches
+    t7 = scenarios.add_regions(bundle_type(2), 1.0,
+                               lower=dict(model='simple', vf_coolant=0.3),
+                               upper=dict(model='simple', vf_coolant=0.4),
+                               rods=[0.25, 0.75])
+    c7 = make_core(rng, {'a1': t7}, [(1, 1, 'a1')], [flow_for(t7)],
+                   gap_model='flow', bypass_fraction=0.05, L=1.0, ncell=2)
+    out.append(('regions-quarter-bounds', c7, True))
     if tier == 'thorough':
         c4 = make_core(rng, {'a1': bundle_type(2, nd=2)}, [(1, 1, 'a1')],
                        [flow_for(bundle_type(2))], gap_model='no_flow',
